@@ -47,7 +47,7 @@ VIEW = 'view(self._container, self.pre, self.post, self.needs_override_check)'
 FLUSHED = ['new(self).pre == EMPTY', 'new(self).post == EMPTY', 'not new(self).needs_override_check']
 MODS = ['self._container', 'self.pre', 'self.post', 'self.needs_override_check']
 
-REG.contract('C13', A, 'CompilerArgs.__iter__', params={'self': CA},
+REG.contract('C13', A, 'CompilerArgs.__iter__', params={'self': CA}, result=SeqS,
              ensures=[f'result == {VIEW}', f'new(self)._container == {VIEW}'] + FLUSHED, modifies=MODS, floor=4)
 REG.contract('C13', A, 'CompilerArgs.__getitem__', params={'self': CA, 'index': Int},
              requires=[f'0 <= index', f'index < len({VIEW})'],
@@ -164,3 +164,32 @@ REG.contract('C13', A, 'CompilerArgs.extend_preserving_lflags', params={'self': 
                             locals={'normal_flags': List(Str), 'lflags': List(Str)})},
              modifies=MODS, floor=4,
              note='always_dedup_args is the class attribute (a tuple of words) read as a field that nothing modifies')
+
+# ---- `list + CompilerArgs` (round ten): __radd__ builds a new list from the plain words and adds SELF with += — so __iadd__ is
+# also under contract for a CompilerArgs argument: the loop iterates through the iteration protocol (the engine calls the contract
+# of __iter__: the argument is flushed and read as the list it denotes)
+VA = 'view(args._container, args.pre, args.post, args.needs_override_check)'
+VAO = VA.replace('args.', 'old_args.')
+REG.contract('C13', A, 'CompilerArgs.__iadd__', variant='ca', params={'self': CA, 'args': CA}, requires=['self is not args'],
+             ensures=[f'new(self).post == Qs(self._container, self.pre, self.post, {VA}, len({VA}))',
+                      f'new(self).pre == rev(Pr(self._container, self.pre, self.post, {VA}, len({VA}))) + self.pre',
+                      f'new(self).needs_override_check == (self.needs_override_check or anyovr({VA}, len({VA})))',
+                      f'new(args)._container == {VA}', 'new(args).pre == EMPTY', 'new(args).post == EMPTY', 'not new(args).needs_override_check',
+                      'result is new(self)'],
+             modifies=['self.pre', 'self.post', 'self.needs_override_check', 'args._container', 'args.pre', 'args.post', 'args.needs_override_check'],
+             loops={0: Loop(invariant=[f'self.post == Qs(old_self._container, old_self.pre, old_self.post, {VAO}, __i)',
+                                       f'tmp_pre == Pr(old_self._container, old_self.pre, old_self.post, {VAO}, __i)',
+                                       f'self.needs_override_check == (old_self.needs_override_check or anyovr({VAO}, __i))',
+                                       'self._container == old_self._container', 'self.pre == old_self.pre'],
+                            locals={'tmp_pre': Deque(Str)})},
+             result=CA, returns='self', floor=20,
+             note='the argument is another CompilerArgs: what is added is the list it denotes (all its pending arguments included), and it is left flushed')
+REG.contract('C13', A, 'CompilerArgs.__radd__', params={'self': CA, 'args': List(Str)},
+             ensures=['result._container == args',
+                      f'result.post == Qs(args, EMPTY, EMPTY, {VIEW}, len({VIEW}))',
+                      f'result.pre == rev(Pr(args, EMPTY, EMPTY, {VIEW}, len({VIEW})))',
+                      f'result.needs_override_check == anyovr({VIEW}, len({VIEW}))',
+                      'result.compiler is self.compiler',
+                      f'new(self)._container == {VIEW}'] + FLUSHED,
+             modifies=MODS, result=CA, floor=5, uses=[('L13.view_flushed', {'c': '*'})],
+             note='`words + args`: the plain words first, then the whole denoted list of self as ONE increment (its -I/-L go in front of the words)')
